@@ -18,7 +18,7 @@ var jumpLen = zz.JumpLen()
 
 var patchTargets = []hwd.Target{hwd.TF0, hwd.TF1, hwd.TM, hwd.TLm, hwd.TG, hwd.TG2own, hwd.TG2hw, hwd.TLoop}
 
-var behaviourTargets = append(append([]hwd.Target{}, patchTargets...), hwd.TXA, hwd.TGen)
+var behaviourTargets = append(append([]hwd.Target{}, patchTargets...), hwd.TXA, hwd.TXB, hwd.TGen)
 
 func alphabet(thorough bool) []hwd.Op {
 	var a []hwd.Op
@@ -55,6 +55,10 @@ func alphabet(thorough bool) []hwd.Op {
 	add(0, hwd.TLoop, hwd.KApplyA, hwd.KCancel, hwd.KApplyORefused)
 	add(0, hwd.TXA, hwd.KApplyA, hwd.KReturn)
 	add(0, hwd.TGen, hwd.KReturn, hwd.KCancel)
+	// interface stubs requested by both builders, and a second method of the variable: a stub region must
+	// never be handed to a second live owner, however often a builder that used it before is reset
+	add(1, hwd.TXA, hwd.KReturn)
+	add(0, hwd.TXB, hwd.KReturn)
 	a = append(a, hwd.Op{B: 0, K: hwd.KPkg})
 	a = append(a, hwd.Op{B: 0, T: hwd.TF0, K: hwd.KApplyA, Kept: true}, hwd.Op{B: 0, T: hwd.TM, K: hwd.KApplyA, Kept: true}, hwd.Op{B: 1, T: hwd.TF0, K: hwd.KApplyA, Kept: true})
 	return a
